@@ -1,3 +1,4 @@
+import Proofs.Connect
 import Generated.Facts
 import Model.Session
 /-! # C18 — connection set-up: CONNECT first, clean session once, resend before new
@@ -89,5 +90,25 @@ every run – all do so under a condition `D != 0`; the CONNACK wait of the hand
 theorem C18_fact_deadlines_respect_zero_timeout :
     Facts.deadlineArming = ["BigMessage.ReadAll", "Client.discard", "Client.handshake", "Client.peekPacket", "writeBuffersTo", "writeTo"] ∧
     Facts.deadlineArmingUnguarded = [] := by decide
+
+/-- a connect attempt that fails (the client not being closed) leaves the "down" marker in the write semaphore and nobody waiting
+for its outcome: every request that waited got its ErrDown, later ones get it at once (lockWrite table) -/
+theorem C18_connect_failure_down (s : S) (fromPrologue : Bool) (e : Err) (hc : s.connSemClosed = false)
+    (h : (s.connect fromPrologue).2 = .done (some e)) :
+    (s.connect fromPrologue).1.link = .down ∧ (s.connect fromPrologue).1.waiters = [] := by
+  have key : ConnectDown (s.connect fromPrologue) := by
+    unfold S.connect
+    simp only [hc, Bool.false_eq_true, if_false]
+    repeat' (first | split | dsimp only)
+    all_goals first
+      | exact connectFail_down _ _ _
+      | (intro e h; cases h; done)
+      | (intro e _; exact ⟨by rw [(failWaiters_sig _ _).2], failWaiters_waiters _ _⟩)
+      | (rename_i hm; intro e h
+         have hs : ConnectDown (S.connectFinish _ _ _) := connectFinish_down _ _ _ (connWrite_conn_isSome _ _ (by simp [S.emit]))
+         rw [hm] at hs
+         first | (cases h; done) | exact hs e h)
+      | (apply connectFinish_down; exact connWrite_conn_isSome _ _ (by simp [S.emit]))
+  exact key e h
 
 end Model
